@@ -27,7 +27,9 @@ FORMS = {
     'spread-child': '<div>{{...v1}}</div>', 'empty-child': '<div>{{}}</div>', 'cmt-child': '<Foo>{{/* c */}}</Foo>', 'str-entities': '<div title="a&quot;b">x &amp; y</div>',
     'attr-str-sym': '<div title="{M}"/>', 'attr-str-sym-comp': '<Foo title="{M}" id="k"/>', 'html-str-sym': '<div v-html="{M}"/>', 'text-str-sym': '<p v-text="{M}"/>',
     'dir-str-sym': '<div v-foo="{M}"/>', 'attr-ns': '<div xlink:href="u" a:b={{v1}}/>', 'key-hyphen': '<div data-x="1" aria-label={{v1}}/>', 'text-only-ws': '<div>   </div>',
-    'vslots-el': '<Foo v-slots=<b/>/>', 'arg-nonstr': '<div v-foo:arg={{v1}}/>', 'ns-dir-suffix': '<div v-foo:a-b_c-d={{v1}}/>',
+    'vslots-el': '<Foo v-slots=<b/>/>', 'dir-element': '<div v-foo=<b/> />', 'dir-fragment': '<div v-foo=<>x<i/></> />', 'show-fragment': '<div v-show=<>y</> />',
+    'dir-ns-fragment': '<Foo v-foo:arg_m=<>z</> />', 'dir-camel-element': '<Foo vFoo_m=<b>{{v1}}</b> />', 'model-element': '<input v-model=<b/> />', 'model-fragment': '<Foo v-model=<>m</> />',
+    'models-element': '<Foo v-models=<b/> />', 'arg-nonstr': '<div v-foo:arg={{v1}}/>', 'ns-dir-suffix': '<div v-foo:a-b_c-d={{v1}}/>',
 }
 
 
